@@ -32,6 +32,7 @@ def _patched_init(self, *a, **k):
     _orig_init(self, *a, **k)
     pl = _ACTIVE["plugin"]
     if pl is not None:
+        _ACTIVE.setdefault("interps", []).append(self)
         self.use(pl)
         cb = _ACTIVE["subs"]
         if cb is not None:
@@ -73,16 +74,17 @@ def observe(rec, interp, label, census=None):
         system = {"<error>": type(e).__name__}
     o = {
         "status": snap.get("status"),
-        "cfg": tuple(snap.get("configuration") or ()),
-        "leaves": tuple(snap.get("state_ids") or ()),
+        "cfg": tuple(snap.get("configuration") or ()) if isinstance(snap.get("configuration") or (), (list, tuple)) else (repr(snap.get("configuration")),),
+        "leaves": tuple(snap.get("state_ids") or ()) if isinstance(snap.get("state_ids") or (), (list, tuple)) else (),
         "ctx": _jsonable(snap.get("context")),
-        "history": {k: tuple(v) for k, v in (snap.get("history") or {}).items()},
+        "history": {k: tuple(v) for k, v in (snap.get("history") or {}).items()} if isinstance(snap.get("history") or {}, dict) else repr(snap.get("history")),
         "output": _jsonable(snap.get("output")),
         "error": snap.get("error"),
         "actors": _actor_tree(snap.get("actors") or {}),
-        "system": dict(snap.get("system") or {}),
+        "system": dict(snap.get("system") or {}) if isinstance(snap.get("system") or {}, dict) else repr(snap.get("system")),
         "system_live": system,
         "census": census() if census else None,
+        "interps": tuple((i.id, i.status, getattr(i.parent, "id", None)) for i in (_ACTIVE.get("interps") or []) if i is not interp),
     }
     rec.rec("obs", label, interp.id, o)
     return o
@@ -90,7 +92,12 @@ def observe(rec, interp, label, census=None):
 
 def _actor_tree(actors):
     out = {}
+    if not isinstance(actors, dict):
+        return {"<malformed>": repr(actors)[:60]}
     for aid, r in actors.items():
+        if not isinstance(r, dict) or not isinstance(r.get("snapshot") or {}, dict):
+            out[aid] = {"<malformed>": repr(r)[:60]}
+            continue
         s = r.get("snapshot") or {}
         out[aid] = {"src": r.get("src"), "status": s.get("status"), "cfg": tuple(s.get("configuration") or ()),
                     "ctx": _jsonable(s.get("context")), "actors": _actor_tree(s.get("actors") or {})}
@@ -136,6 +143,7 @@ def _begin_run(sc, env, budget):
     plugin = RecPlugin(rec, hostile=set(hostile) if hostile else None)
     _ACTIVE["rec"] = rec
     _ACTIVE["plugin"] = plugin
+    _ACTIVE["interps"] = []
     return rec, plugin
 
 
@@ -144,6 +152,7 @@ def _end_run(rec):
     _ACTIVE["rec"] = None
     _ACTIVE["plugin"] = None
     _ACTIVE["subs"] = None
+    _ACTIVE["interps"] = []
     seams.LOGCAP.sink = None
 
 
@@ -252,6 +261,7 @@ def exec_async(sc):
         clients = {}
         ops = list(enumerate(sc.get("ops") or []))
         snapshots = {}
+        snap_live = []
 
         async def run_op(i, op, prev):
             if prev is not None and not prev.done():
@@ -277,6 +287,8 @@ def exec_async(sc):
                 elif kind == "snapshot":
                     s = interp.get_snapshot()
                     snapshots[op.get("label", i)] = s
+                    live = interp.get_persisted_snapshot()
+                    snap_live.append((op.get("label", i), live, copy.deepcopy(live)))
                     out = ("snapshot", s)
                 elif kind == "noop":
                     pass
@@ -303,7 +315,6 @@ def exec_async(sc):
                         t.cancel()
             loop.settle()
             rec.closed = False
-            seams.UUID.reset()
             rec.rec("op-call", i, "restore", None, None, None)
             try:
                 with loop.running():
@@ -353,6 +364,9 @@ def exec_async(sc):
                 loop.settle()
             if not loop.aborted:
                 observe(rec, st["interp"], "final", census)
+                for label, live, frozen in snap_live:
+                    if live != frozen:
+                        rec.rec("snap-mutated", label)
         post = sc.get("post_stop")
         if post and not loop.aborted:
             with loop.running():
@@ -430,6 +444,7 @@ def exec_sync(sc):
         enable_line_monitor(seams.PKG_DIR, on_line)
     st = {"interp": None}
     snapshots = {}
+    snap_live = []
     try:
         builder = Builder(sc, rec, env, "sync")
         machine = builder.machine_for(None)
@@ -455,6 +470,8 @@ def exec_sync(sc):
                 elif kind == "snapshot":
                     s = interp.get_snapshot()
                     snapshots[op.get("label", i)] = s
+                    live = interp.get_persisted_snapshot()
+                    snap_live.append((op.get("label", i), live, copy.deepcopy(live)))
                     out = ("snapshot", s)
                 elif kind == "noop":
                     pass
@@ -497,7 +514,6 @@ def exec_sync(sc):
                     if t.real is not None:
                         t.real.join(timeout=5)
             rec.closed = False
-            seams.UUID.reset()
             rec.rec("op-call", i, "restore", None, None, None)
             try:
                 m2 = builder.fresh_machine(None)
@@ -548,6 +564,9 @@ def exec_sync(sc):
                 sim.wait_quiescent()
             if not sim.aborted:
                 observe(rec, st["interp"], "final", census)
+                for label, live, frozen in snap_live:
+                    if live != frozen:
+                        rec.rec("snap-mutated", label)
         post = sc.get("post_stop")
         if post and not sim.aborted:
             do_op(10**6, {"op": "stop"})
